@@ -18,6 +18,8 @@ def run(tier, seed):
         traces[s] = os.path.join(chk.workdir, "sign_%d.ndjson" % s)
     n, mism = common.validate_f(chk, traces, nproc=12, key_of=lambda m: "sign:" + m["ev"])
     common.acvp_anchor(chk, 0, 1 if tier == "quick" else 4, 0, seed)
+    # the whole specification (hashing, samplers, codecs, rejection loop) on ring degree 8: staged = literal forms, Verify(Sign) = TRUE
+    common.mc_leg(chk, "MC_SmallN", tier=tier, coverage=False, must_print=["REJECT1 taken", "REJECT2 taken"])
     # samplers used by signing (ExpandMask, SampleInBall) at scale, rarest cases judged by TLC
     sw = os.path.join(chk.workdir, "sw")
     from concurrent.futures import ThreadPoolExecutor
